@@ -25,7 +25,7 @@ QUICK_CLASSES = ["Db", "DbGrid", "Model", "NeighMoving", "Vario", "Polygons", "T
 ALL_CLASSES = c08.QUICK_CLASSES + c08.MORE_CLASSES
 
 ASAN_ENV = {"ASAN_OPTIONS": "abort_on_error=1:detect_leaks=0:allocator_may_return_null=0:max_allocation_size_mb=1024:"
-                            "handle_abort=0:print_summary=1:symbolize=1:malloc_context_size=8:detect_odr_violation=0",
+                            "handle_abort=0:print_summary=1:symbolize=0:malloc_context_size=2:fast_unwind_on_malloc=1:detect_odr_violation=0",
             "UBSAN_OPTIONS": "print_stacktrace=0:halt_on_error=0:report_error_type=1"}
 
 
@@ -147,7 +147,7 @@ def fault_model(ck, picks, level, workers):
     return bases, faults, res
 
 
-def run_loader(ck, files, tag, batch=40, nproc=8):
+def run_loader(ck, files, tag, batch=60, nproc=12, alarm=None):
     """files: list of {id, c, text, ...}; returns {id: outcome record} and sanitizer messages per id"""
     exe = build_fault_harness()
     w = ck.work
@@ -156,6 +156,9 @@ def run_loader(ck, files, tag, batch=40, nproc=8):
     env = dict(os.environ)
     if use_asan():
         env.update(ASAN_ENV)
+        env["NF_NO_CONFIRM"] = "1"
+    if alarm:
+        env["NF_ALARM"] = str(alarm)
     else:
         env["NF_RLIMIT_MB"] = "2048"
     chunks = [files[i::nproc] for i in range(nproc)]
@@ -168,10 +171,10 @@ def run_loader(ck, files, tag, batch=40, nproc=8):
         op = os.path.join(w, "out_%s_%d.ndjson" % (tag, i))
         lp = os.path.join(w, "log_%s_%d.txt" % (tag, i))
         p = subprocess.Popen([exe, fp, op, tmp, lp, str(batch)], env=env, stdout=subprocess.DEVNULL, stderr=subprocess.PIPE, text=True)
-        procs.append((p, op, lp, len(ch)))
+        procs.append((p, op, lp, ch))
     outs = {}
     sani = collections.defaultdict(list)
-    for p, op, lp, n in procs:
+    for p, op, lp, ch in procs:
         try:
             _, err = p.communicate(timeout=6000)
         except subprocess.TimeoutExpired:
@@ -183,6 +186,9 @@ def run_loader(ck, files, tag, batch=40, nproc=8):
             prev = outs.get(r["id"])
             if prev is None or r["outcome"] == "crash-in-batch":
                 outs[r["id"]] = r
+            if "batch_from" in r:
+                # the files that the dead child had processed before (context of the death)
+                r["context"] = [f["id"] for f in ch[r["batch_from"]:r["index"] + 1]]
         cur = None
         stage = None
         with open(lp, errors="replace") as f:
@@ -344,10 +350,46 @@ def _run(ck, tier):
         fid += 1
         valid.append({"id": fid, "c": b["c"], "pc": b["c"], "ndim": base_ndim(b), "kind": "valid", "k": 0, "t": "", "base": b["base"], "text": render(b["lines"]),
                       "verdict": "MaySucceed", "unsafe": [], "rev": []})
+    t0 = time.time()
     outs, sani = run_loader(ck, files + valid, "main")
+    log("[C09] %d files loaded by the real loaders in child processes in %.1fs" % (len(files) + len(valid), time.time() - t0))
+    # a death (crash, time-out, memory) that the transcription of the reader does not predict is confirmed: the file is
+    # run again alone with a longer alarm; when it passes alone, the files that the dead child had processed before it
+    # are run again in one child (a death that needs its predecessors is a violation of its own kind, "crash-in-batch");
+    # a death that is not reproduced either way is counted as transient (machine load) and ignored
+    byid = {f["id"]: f for f in files + valid}
+    unexp = [f for f in files + valid if outs[f["id"]]["outcome"] in ("crash", "timeout", "oom")
+             and pred_class(f.get("unsafe", [])) == "none"]
+    transient = 0
+    if unexp:
+        o2, s2 = run_loader(ck, unexp, "again", batch=1, nproc=min(12, len(unexp)), alarm=60)
+        nconf = 0
+        for f in unexp:
+            k = f["id"]
+            if o2[k]["outcome"] in ("crash", "timeout", "oom"):
+                nconf += 1
+                o2[k]["confirmed_alone"] = True
+                outs[k] = o2[k]
+                sani[k] = s2.get(k, [])
+                continue
+            ctx = [byid[i] for i in outs[k].get("context", []) if i in byid]
+            o3, s3 = run_loader(ck, ctx, "ctx", batch=len(ctx) + 1, nproc=1, alarm=60) if len(ctx) > 1 else ({k: o2[k]}, {})
+            if o3.get(k, o2[k])["outcome"] in ("crash", "timeout", "oom"):
+                o3[k]["outcome"] = "crash-in-batch"
+                o3[k]["batch"] = [i["id"] for i in ctx]
+                outs[k] = o3[k]
+                sani[k] = s3.get(k, [])
+                nconf += 1
+            else:
+                transient += 1
+                outs[k] = o2[k]
+                sani[k] = s2.get(k, [])
+        log("[C09] %d deaths not predicted by the transcription run again: %d confirmed, %d transient" % (len(unexp), nconf, transient))
+    ck.cov["transient_deaths_ignored"] = transient
     for v in valid:
         if outs[v["id"]]["outcome"] != "ok":
-            raise Broken("a valid file of the model is not loaded by the real library: %s -> %s" % (v["text"][:300], outs[v["id"]]))
+            raise Broken("a valid file of the model is not loaded by the real library: %s -> %s %s" %
+                         (v["text"][:300], outs[v["id"]], sani.get(v["id"])))
     stats = evaluate(ck, files + valid, outs, sani, "main")
     per_kind = collections.Counter(f["kind"] for f in files)
     for k in ("trunc", "corrupt", "emptyline", "wrongclass", "dupline", "dropline"):
